@@ -334,6 +334,20 @@ fn directed() -> Vec<History> {
                 Op::Close { sock: 2, server_first: false },
             ],
         },
+        // known finding (closed window is never probed): the server fills
+        // the client's receive buffer, queues more, then drops its stream;
+        // the client neither reads nor closes
+        History {
+            hosts: h2.clone(),
+            ops: vec![
+                b(1, 0, Proto::Tcp, "0.0.0.0", 5000),
+                Op::TcpConnect { id: 2, host: 1, to: sa("10.0.0.1:5000") },
+                Op::Fill { sock: 100_002 },
+                Op::CloseOne { sock: 100_002 },
+                Op::Close { sock: 1, server_first: false },
+                b(3, 0, Proto::Tcp, "0.0.0.0", 5000),
+            ],
+        },
         // known finding (no orphan FIN_WAIT2 timeout): the server drops its
         // accepted stream, the client keeps the connection open
         History {
@@ -462,6 +476,7 @@ pub fn run(ctx: &Ctx) -> ! {
             "tcp_probe_TimedOut",
             "established_exchanges",
             "close_one_end",
+            "fill_bytes_written",
             "half_open_connects",
             "half_open_resolved_ok",
             "half_open_resolved_ConnectionRefused",
